@@ -49,7 +49,10 @@ func genC07(rt *rapid.T) CaseC07 {
 		maxOps = 24
 	}
 	n := rapid.IntRange(1, maxOps).Draw(rt, "nops")
-	keyIdx := rapid.IntRange(0, len(docKeys)-1)
+	// each case works on a small pool of keys drawn from the list (so that deletes keep hitting documents that
+	// exist and puts keep replacing them), different pools bring the different kinds of key into play
+	pool := rapid.SliceOfNDistinct(rapid.IntRange(0, len(docKeys)-1), 5, 9, func(x int) int { return x }).Draw(rt, "keypool")
+	keyIdx := rapid.SampledFrom(pool)
 	for i := 0; i < n; i++ {
 		kinds := []string{"put", "put", "put", "putall", "putall", "putall", "putbatch", "del", "del", "del", "reopen", "rsync", "rsync", "rreopen"}
 		if c.Writers > 1 {
